@@ -9,7 +9,8 @@ META = dict(
               "classes absent or in [0,3], UNKNOWN cap absent or in [0,3], through Retry/AsyncRetry call+execute; "
               "all 8 classes x {exception,result} with one limited class per job at N=2 (Retry.call); sugar entry points "
               "(Policy.call, AsyncPolicy.execute, RetryPolicy.execute, AsyncRetryPolicy.call, @retry on a sync and an async function, "
-              "RetryPolicy.from_config().call, AsyncRetryPolicy.from_config().execute) at N=2; two consecutive calls on "
+              "RetryPolicy.from_config().call, AsyncRetryPolicy.from_config().execute, caps assigned as attributes on a "
+              "RetryPolicy / AsyncRetryPolicy after construction) at N=2; two consecutive calls on "
               "one object at N=2 (Retry.call, AsyncRetry.execute, Policy.call)",
         thorough="N=4 for Retry.call and AsyncRetry.execute (N=3 for the other two runners) / all 8 classes N=3 on two entry points / all sugar entry points N=3 / twice N=3",
     ),
@@ -28,7 +29,7 @@ CORE = ["retry.call", "retry.execute", "aretry.call", "aretry.execute"]
 SUGAR = ["policy.call", "policy.execute", "apolicy.call", "apolicy.execute", "rp.call", "rp.execute", "arp.call",
          "arp.execute"]
 MORE = ["deco.call", "adeco.call", "retrycfg.call", "aretrycfg.execute", "rpcfg.call", "rpcfg.execute", "arpcfg.call", "arpcfg.execute",
-        "retry.context", "apolicy.context"]
+        "retry.context", "apolicy.context", "rpset.call", "rpset.execute", "arpset.call", "arpset.execute"]
 ALL8 = [c.name for c in EC]
 
 
@@ -126,7 +127,7 @@ def jobs(tier):
                             max_wall_s=600 if q else 2400, weight=2))
     # (c) sugar entry points
     N = 2 if q else 3
-    for entry in (["policy.call", "apolicy.execute", "rp.execute", "arp.call", "deco.call", "adeco.call", "rpcfg.call", "arpcfg.execute"] if q else SUGAR + MORE):
+    for entry in (["policy.call", "apolicy.execute", "rp.execute", "arp.call", "deco.call", "adeco.call", "rpcfg.call", "arpcfg.execute", "rpset.execute", "arpset.call"] if q else SUGAR + MORE):
         out.append(dict(name=f"sugar:{entry}", harness="rv.props.c01:h_run",
                         params=dict(entry=entry, N=N, kinds=kinds, classes=three, limits=three, cap="sym",
                                     hooks=False),
